@@ -119,7 +119,13 @@ package httpgen
 //@   ensures err == nil ==> spec.AllOK_nullable(file.Messages)
 
 //@ func (g *Generator) generateEmptyBehaviorEncodingFile(file *protogen.File) (err error)
+//@   modifies *
 //@   ensures err == nil ==> spec.AllOK_emptyBehavior(file.Messages)
+// the empty_behavior file imports proto (writeEmptyBehaviorImports) only together with a line that uses it (C13)
+//@   at-call writeEmptyBehaviorImports requires once: count("writeEmptyBehaviorImports") == old(count("writeEmptyBehaviorImports"))
+//@   ensures proto_import_used: count("writeEmptyBehaviorImports") > old(count("writeEmptyBehaviorImports")) ==> count("P:proto.Size(") > old(count("P:proto.Size("))
+//@   loop 1 invariant count("P:proto.Size(") >= old(count("P:proto.Size(")) && (_i1 > 0 ==> count("P:proto.Size(") > old(count("P:proto.Size(")))
+//@   loop 1 invariant forall k int :: 0 <= k && k < len(contexts) ==> contexts[k] != nil && len(contexts[k].EmptyBehaviorFields) > 0
 
 //@ func (g *Generator) generateTimestampFormatEncodingFile(file *protogen.File) (err error)
 //@   modifies *
@@ -326,6 +332,37 @@ package httpgen
 //@ func collectEmptyBehaviorMessages(messages []*protogen.Message, contexts *[]*EmptyBehaviorContext)
 //@   modifies contexts
 //@   decreases spec.depth(messages)
+// every collected context has an annotated field (C13: the file's proto import is used)
+//@   ensures contexts_nonempty: (forall k int :: 0 <= k && k < len(old(*contexts)) ==> old(*contexts)[k] != nil && len(old(*contexts)[k].EmptyBehaviorFields) > 0) ==> (forall k int :: 0 <= k && k < len((*contexts)) ==> (*contexts)[k] != nil && len((*contexts)[k].EmptyBehaviorFields) > 0)
+//@   loop 1 invariant (forall k int :: 0 <= k && k < len(old(*contexts)) ==> old(*contexts)[k] != nil && len(old(*contexts)[k].EmptyBehaviorFields) > 0) ==> (forall k int :: 0 <= k && k < len((*contexts)) ==> (*contexts)[k] != nil && len((*contexts)[k].EmptyBehaviorFields) > 0)
+
+//@ func hasEmptyBehaviorFields(message *protogen.Message) (r bool)
+//@   pure
+//@   ensures r == spec.hasEmptyBehaviorField(message)
+//@   loop 1 invariant forall k int :: 0 <= k && k < _i1 ==> !annotations.HasEmptyBehaviorAnnotation(message.Fields[k])
+
+//@ func getEmptyBehaviorFields(message *protogen.Message) (r []*EmptyBehaviorFieldInfo)
+//@   ensures nonempty: spec.hasEmptyBehaviorField(message) ==> len(r) > 0
+//@   loop 1 invariant (exists k int :: 0 <= k && k < _i1 && annotations.HasEmptyBehaviorAnnotation(message.Fields[k])) ==> len(fields) > 0
+
+//@ func collectEmptyBehaviorContext(file *protogen.File) (r []*EmptyBehaviorContext)
+//@   ensures contexts_nonempty: (forall k int :: 0 <= k && k < len(r) ==> r[k] != nil && len(r[k].EmptyBehaviorFields) > 0)
+
+//@ func (g *Generator) generateEmptyBehaviorFieldMarshal(gf *protogen.GeneratedFile, fieldInfo *EmptyBehaviorFieldInfo)
+//@   modifies *
+//@   ensures uses_proto: count("P:proto.Size(") > old(count("P:proto.Size("))
+
+//@ func (g *Generator) generateEmptyBehaviorMarshalJSON(gf *protogen.GeneratedFile, ctx *EmptyBehaviorContext)
+//@   requires ctx != nil
+//@   modifies *
+//@   ensures uses_proto: len(ctx.EmptyBehaviorFields) > 0 ==> count("P:proto.Size(") > old(count("P:proto.Size("))
+//@   ensures monotone: count("P:proto.Size(") >= old(count("P:proto.Size("))
+//@   loop 2 invariant count("P:proto.Size(") >= old(count("P:proto.Size(")) && (_i2 > 0 ==> count("P:proto.Size(") > old(count("P:proto.Size(")))
+
+//@ func (g *Generator) generateEmptyBehaviorUnmarshalJSON(gf *protogen.GeneratedFile, ctx *EmptyBehaviorContext)
+//@   requires ctx != nil
+//@   modifies *
+//@   ensures monotone: count("P:proto.Size(") >= old(count("P:proto.Size("))
 
 //@ func collectFlattenMessages(messages []*protogen.Message, contexts *[]*FlattenContext)
 //@   modifies contexts
